@@ -58,6 +58,8 @@ ASSUMPTIONS = [
     "VoxelRegion is defined by its voxel centres + pitch (construction data); view regions and pruned regions are not generated",
     "compositions the library cannot build or sample (NotImplementedError, missing circumcircle, undefined sampling, "
     "ZeroDivisionError / RecursionError inside the library) are counted as refused, not judged",
+    "a horizontal planar region lying exactly (1e-9) in the plane of a flat box / prism mesh face only touches it within numerical "
+    "tolerance (the library's exact z tests are then decided by rounding noise): membership is judged, uniformity and coverage are not",
     "a violation is attributed to a known-finding key only if the same draws are clean under that defect's alternative reference set",
     "lazy workload: the region of a scene is rebuilt from the parameter values the scene reports (global params); positions of "
     "continuous lazy regions are judged for membership only (one draw per scene); programs the library cannot compile "
@@ -507,10 +509,14 @@ def run(tape):
         if not len(P):
             stats["unjudged:sampler-always-rejects"] = 1
 
+        coplanar = bool(op) and rr.coplanar_contact(A.ref, B.ref)
+
         def judge(rf, st, ex):
             v = law_violations(rf, law[0], law[1], info) if law else member_violations(rf, P, "membership", info)
             if rf.dim > 0 and len(P) and not v:
-                if len(P) >= min(n, 600):
+                if coplanar:  # membership is still judged; uniformity / coverage of a mere contact is not
+                    st["unjudged:coplanar-contact"] = 1
+                elif len(P) >= min(n, 600):
                     v += uniformity(rf, P, info, st, ex)
                 else:
                     st["unjudged:too-few-accepted-draws"] = 1
